@@ -134,8 +134,28 @@ w('pub proof fn lemma_sasl_codes()')
 w('    ensures SaslCode::Ok as u8 == 0, SaslCode::Auth as u8 == 1, SaslCode::Sys as u8 == 2, SaslCode::SysPerm as u8 == 3, SaslCode::SysTemp as u8 == 4,       // [C19.sasl-code.values] [C03.restricted.value-written] [C05.restricted.value-written] AMQP 1.0 part 5, 5.3.3.6 sasl-code: 0 = ok (authentication succeeded), 1 = auth, 2 = sys, 3 = sys-perm, 4 = sys-temp')
 w('{}')
 w('')
+w('// ================================================================ defaults: what an absent (or null) field stands for -- AMQP 1.0 field tables, `default=` attributes')
+DL = '[C05.default.specification-default] [C03.default.specification-default]'
+w('//@@ enumorder file=%sdefinitions/snd_settle_mode.rs enum=SenderSettleMode default=mixed noorder `unsettled,settled,mixed` `%s attach.snd-settle-mode defaults to mixed (part 2, 2.7.3)`' % (T, DL))
+w('//@@ enumorder file=%sdefinitions/rcv_settle_mode.rs enum=ReceiverSettleMode default=first noorder `first,second` `%s attach.rcv-settle-mode defaults to first (part 2, 2.7.3)`' % (T, DL))
+w('//@@ enumorder file=%smessaging/term_expiry_policy.rs enum=TerminusExpiryPolicy default=session-end noorder `link-detach,session-end,connection-close,never` `%s source / target expiry-policy defaults to session-end (part 3, 3.5.3)`' % (T, DL))
+w('pub struct Handle(pub u32);')
+w('pub struct Priority(pub u8);')
+w('pub struct MaxFrameSize(pub u32);')
+w('pub struct ChannelMax(pub u16);')
+for (ty, f, val, prop, what) in [('Handle', 'definitions/mod.rs', '0xffff_ffffu32', 'C11', 'begin.handle-max defaults to 4294967295 (part 2, 2.7.2)'),
+                               ('Priority', 'messaging/format/mod.rs', '4u8', 'C01', 'header.priority defaults to 4 (part 3, 3.2.1)'),
+                               ('MaxFrameSize', 'performatives/open.rs', '0xffff_ffffu32', 'C06', 'open.max-frame-size defaults to 4294967295 (part 2, 2.7.1)'),
+                               ('ChannelMax', 'performatives/open.rs', '0xffffu16', 'C17', 'open.channel-max defaults to 65535 (part 2, 2.7.1)')]:
+    w('impl %s {' % ty)
+    w('//@@ fn file=%s%s impl=`impl Default for %s` name=default id=%s::default' % (T, f, ty, ty))
+    w('//@@ ret %s' % ty)
+    w('//@@ spec')
+    w('    ensures r.0 == %s,       // %s [%s.default.specification-default] %s: a peer that leaves the field out means exactly this value, and this end leaves it out only for this value' % (val, DL, prop, what))
+    w('//@@ end')
+    w('}')
 w('// ================================================================ TerminusDurability: serde derive on a fieldless enum')
-w('//@@ enumorder file=%smessaging/terminus_durability.rs enum=TerminusDurability `none,configuration,unsettled-state` `[C03.restricted.value-written] [C05.restricted.value-written] AMQP 1.0 part 3, 3.5.5 terminus-durability: 0 = none, 1 = configuration, 2 = unsettled-state`' % T)
+w('//@@ enumorder file=%smessaging/terminus_durability.rs enum=TerminusDurability default=none `none,configuration,unsettled-state` `[C03.restricted.value-written] [C05.restricted.value-written] AMQP 1.0 part 3, 3.5.5 terminus-durability: 0 = none, 1 = configuration, 2 = unsettled-state`' % T)
 w('')
 w('} // verus!')
 w('fn main() {}')
